@@ -145,8 +145,9 @@ Inductive check :=
 | KStrIntNewCoin (p : path)                       (* sdk.NewCoin(denom, x): panics on negative *)
 | KLenEq (p q : path)                             (* len(a) != len(b) -> error *)
 | KIndexPair (p q : path)                         (* b[i] for i := range a: panics when len(a) > len(b) *)
-| KAllNonNeg (p : path)                           (* j < 0 -> error, for every j *)
-| KIndexUse (p : path)                            (* slice[j] after "len <= j -> error": panics on j < 0 *)
+| KIndexGuard (p : path)                          (* j < 0 || len(stored) <= j -> error, for every j (on the unbounded index) *)
+| KIndexUpper (p : path)                          (* len(stored) <= j -> error only: the check before repair *)
+| KIndexUse (p : path)                            (* stored[j]: panics unless 0 <= j < len(stored) *)
 | KCoinsAmtNotNil (p : path)
 | KCoinsValid (p : path)                          (* Coins.IsValid(): panics on a nil amount *)
 | KWeights (fixed : bool) (p : path)              (* the VoteGauge weight loop *)
@@ -204,10 +205,18 @@ Definition coins_valid_go (l : list fval) : res unit :=
                           | VMsg true [VStr d; VInt (Some a)] => si_denom d && (0 <? a)
                           | _ => false end) l).
 
-Definition all_nonneg (l : list fval) : bool :=
-  forallb (fun x => match x with VNum j => 0 <=? j | _ => false end) l.
+(* indices into a stored slice of length n (the shard hashes of the addressed DA item; n is
+   read from the state by the harness and universally quantified in the theorems).  The bound
+   is stated on the index as an unbounded integer: no conversion to a narrower type. *)
+Definition idx_ok (n j : Z) : bool := (0 <=? j) && (j <? n).
+Definition all_in_range (n : Z) (l : list fval) : bool :=
+  forallb (fun x => match x with VNum j => idx_ok n j | _ => false end) l.
+Definition all_below (n : Z) (l : list fval) : bool :=
+  forallb (fun x => match x with VNum j => j <? n | _ => false end) l.
+(* what a comparison of the indices truncated to 32 unsigned bits would accept *)
+Definition idx_ok_u32 (n j : Z) : bool := (j mod 2 ^ 32) <? (n mod 2 ^ 32).
 
-Definition exec (c : check) (req : fval) : res unit :=
+Definition exec (n : Z) (c : check) (req : fval) : res unit :=
   match c with
   | KReqNotNil => match req with VMsg false _ => Err E_HEAD | _ => Ok tt end
   | KAddr p => rd req p (fun v => match v with VStr s => okif (si_acc s) | _ => bad end)
@@ -269,9 +278,10 @@ Definition exec (c : check) (req : fval) : res unit :=
       rd2 req p q (fun a b => match a, b with
                               | VList la, VList lb => if (List.length lb <? List.length la)%nat then Panic else Ok tt
                               | _, _ => bad end)
-  | KAllNonNeg p => rd req p (fun v => match v with VList l => okif (all_nonneg l) | _ => bad end)
+  | KIndexGuard p => rd req p (fun v => match v with VList l => okif (all_in_range n l) | _ => bad end)
+  | KIndexUpper p => rd req p (fun v => match v with VList l => okif (all_below n l) | _ => bad end)
   | KIndexUse p =>
-      rd req p (fun v => match v with VList l => if all_nonneg l then Ok tt else Panic | _ => bad end)
+      rd req p (fun v => match v with VList l => if all_in_range n l then Ok tt else Panic | _ => bad end)
   | KCoinsAmtNotNil p =>
       rd req p (fun v => match v with VList l => okif (coin_amounts_not_nil l) | _ => bad end)
   | KCoinsValid p => rd req p (fun v => match v with VList l => coins_valid_go l | _ => bad end)
@@ -296,24 +306,24 @@ Definition exec (c : check) (req : fval) : res unit :=
   end.
 
 (* run a head; [o] says, for each KMayStop reached, whether the handler continues *)
-Fixpoint run (o : list bool) (cs : list check) (req : fval) : res unit :=
+Fixpoint run (n : Z) (o : list bool) (cs : list check) (req : fval) : res unit :=
   match cs with
   | [] => Ok tt
   | KDeep :: _ => Ok tt
   | KMayStop :: tl =>
       match o with
-      | true :: o' => run o' tl req
+      | true :: o' => run n o' tl req
       | _ => Err E_STATE
       end
-  | c :: tl => match exec c req with Ok _ => run o tl req | Err e => Err e | Panic => Panic end
+  | c :: tl => match exec n c req with Ok _ => run n o tl req | Err e => Err e | Panic => Panic end
   end.
 
 (* the part of a head whose outcome is determined by the request alone: up to the first
    KMayStop / KDeep.  Ok tt = "not rejected by the static part". *)
-Fixpoint run_static (cs : list check) (req : fval) : res unit :=
+Fixpoint run_static (n : Z) (cs : list check) (req : fval) : res unit :=
   match cs with
   | [] | KDeep :: _ | KMayStop :: _ => Ok tt
-  | c :: tl => match exec c req with Ok _ => run_static tl req | Err e => Err e | Panic => Panic end
+  | c :: tl => match exec n c req with Ok _ => run_static n tl req | Err e => Err e | Panic => Panic end
   end.
 
 (* ------------------------------------------------------------------ pure predicates used by KPred *)
@@ -365,8 +375,10 @@ Definition specs (hf : hfixes) : list (string * bool * list check) := [
   ("da.Msg.SubmitInvalidity", false,
      [KAddr [n0]; KPred [n2] len_nonzero; KMayStop; KMustAddr [n0]; KDeep]);
   ("da.Msg.SubmitValidityProof", false,
-     [KAddr [n0]; KValAddr [n1]; KMayStop; KLenEq [n3] [n4]; KMayStop; KIndexPair [n3] [n4]]
-     ++ g hf FamDa (KAllNonNeg [n3]) ++ [KMayStop; KIndexUse [n3]; KDeep]);
+     (* signer (validator bonded, sender is the validator or its deputy); lengths; item found,
+        challenged, within the proof period; per index: Proofs[i] parses, index check, hashes[j] *)
+     [KAddr [n0]; KValAddr [n1]; KMayStop; KLenEq [n3] [n4]; KMayStop; KIndexPair [n3] [n4]; KMayStop]
+     ++ g hf FamDa (KIndexGuard [n3]) ++ u hf FamDa (KIndexUpper [n3]) ++ [KIndexUse [n3]; KDeep]);
   ("da.Msg.UnregisterProofDeputy", false, [KAddr [n0]; KDeep]);
   ("da.Msg.UpdateParams", false,
      upd ([KPred [n1; n0] dec_unit; KPred [n1; n1] dec_positive; KPred [n1; n2] num_nonzero;
@@ -544,7 +556,7 @@ Definition check_typed (sg : sig) (c : check) : bool :=
   | KCoinValidate p | KCoinIsPositive p => sig_is sg p is_coin
   | KDecNotNil p | KDecUse p => sig_is sg p is_dec
   | KLenEq p q | KIndexPair p q => sig_is sg p is_list && sig_is sg q is_list
-  | KAllNonNeg p | KIndexUse p => sig_is sg p is_numlist
+  | KIndexGuard p | KIndexUpper p | KIndexUse p => sig_is sg p is_numlist
   | KCoinsAmtNotNil p | KCoinsValid p => sig_is sg p is_coins
   | KWeights _ p => sig_is sg p is_weights
   | KRouteValidate _ p | KRouteDeref p | KRouteInspect p => sig_is sg p is_route
